@@ -151,6 +151,14 @@ fn main() {
         }
         std::process::exit(if fails.is_empty() && n > 0 { 0 } else { 2 });
     }
+    if prop == "pin-tr" {
+        let (n, fails) = pin::pin_tr();
+        println!("pin-tr: {n} values of the Taproot reference (scen-tr) compared with the repository's frost-secp256k1-tr vector, BIP-340 vector 0 and BIP-341 wallet vector 1, {} mismatches", fails.len());
+        for f in &fails {
+            println!("  MISMATCH {f}");
+        }
+        std::process::exit(if fails.is_empty() && n > 0 { 0 } else { 2 });
+    }
     if let Some(path) = &args.replay {
         let v: serde_json::Value = serde_json::from_str(&std::fs::read_to_string(path).expect("replay file")).expect("json");
         let p = Params::from_json(&v["params"]).expect("params");
